@@ -102,8 +102,10 @@ def gen_call(lib, k, call):
         vn = "%s_%d" % (n, k)
         if kd == "val":
             A.append(flit(args[n], T))
-        elif kd == "implied":
+        elif kd in ("implied", "len_hidden"):
             continue
+        elif kd == "cls_cptr":
+            A.append(call["arg_objs"][n])
         elif kd in ("ptr_in", "ptr_inout", "ref_inout"):
             D.append("%s :: %s" % (ftype(T), vn))
             S.append("%s = %s" % (vn, flit(args[n], T)))
@@ -171,8 +173,14 @@ def gen_call(lib, k, call):
         name = "%s%%%s" % (call["obj"], lib_un_camel(f["name"]))
     if r["kind"] == "val":
         D.append("%s :: vfret" % ftype(r["T"]))
-    elif r["kind"] in ("cstr", "str_val", "str_cref"):
+    elif r["kind"] in ("cstr", "str_val", "str_cref", "str_ptr_own"):
         D.append("character(len=:), allocatable :: vfret")
+    elif r["kind"] == "arr_ptr" and r["deref"] == "pointer":
+        D.append("%s, pointer :: vfret(:)" % ftype(r["T"]))
+        if r.get("owner") == "caller":
+            A.append(call["crv"])          # documented: an extra capsule argument owns the memory
+    elif r["kind"] in ("arr_ptr", "vec_val"):
+        D.append("%s, allocatable :: vfret(:)" % ftype(r["T"]))
     elif r["kind"] in ("cstr_len", "str_cref_len"):
         D.append("character(len=%d) :: vfret" % r["N"])
     L += ["    " + d for d in D]
@@ -180,11 +188,19 @@ def gen_call(lib, k, call):
     L += ["    " + s for s in S]
     if r["kind"] == "void":
         L.append("    call %s(%s)" % (name, ", ".join(A)))
+    elif r["kind"] in ("cls_ptr", "cls_val"):
+        L.append("    %s = %s(%s)" % (call["res_obj"], name, ", ".join(A)))
+    elif r["kind"] == "arr_ptr" and r["deref"] == "pointer":
+        L.append("    vfret => %s(%s)" % (name, ", ".join(A)))
     else:
         L.append("    vfret = %s(%s)" % (name, ", ".join(A)))
     L.append("    call vfo_begin(%d)" % k)
     if r["kind"] == "val":
         L.append("    " + prn(r["T"], "ret", "vfret"))
+    elif r["kind"] in ("cls_ptr", "cls_val"):
+        L.append("    call vfo_b('associated', %s%%associated())" % call["res_obj"])
+    elif r["kind"] in ("arr_ptr", "vec_val"):
+        L.append("    " + prn_arr(r["T"], "ret", "vfret"))
     elif r["kind"] != "void":
         L.append("    call vfo_s('ret', vfret)")
     L += ["    " + x for x in Pn]
